@@ -30,7 +30,7 @@ Proof. intros a b c H1 H2 m H. apply H2. apply H1. exact H. Qed.
 
 Section Progress.
 Variable p : program.
-Variables tord bord : state -> node -> list node -> list node.
+Variables tord bord pord : state -> node -> list node -> list node.
 Variable rk : node -> nat.
 Hypothesis Hrk : forall n e d, alookup p n = Some e -> In d (expr_reads e) -> (rk d < rk n)%nat.
 Hypothesis Hproj : forall n e d, alookup p n = Some e -> nkind n = KProjection -> In d (expr_reads e) ->
@@ -41,11 +41,11 @@ Hypothesis Htargets : forall n e d, alookup p n = Some e -> In d (expr_reads e) 
 Hypothesis Htord : forall s x l y, In y (tord s x l) <-> In y l.
 Hypothesis Hbord : forall s x l y, In y (bord s x l) <-> In y l.
 
-Notation mquery := (query_for_o p None tord bord).
-Notation mexecute := (execute_o p None tord bord).
-Notation meval := (eval_o p None tord bord).
-Notation mrepair := (repair_o p None tord bord).
-Notation mbackward := (backward_o p None tord bord).
+Notation mquery := (query_for_o p None tord bord pord).
+Notation mexecute := (execute_o p None tord bord pord).
+Notation meval := (eval_o p None tord bord pord).
+Notation mrepair := (repair_o p None tord bord pord).
+Notation mbackward := (backward_o p None tord bord pord).
 
 Record SInvM (inp : inputs) (s : state) : Prop := {
   sk_kind : forall n i, get_info s n = Some i ->
@@ -293,27 +293,27 @@ Definition prog_backward (f : nat) : Prop :=
   forall n s, SInvM inp s -> stored s n ->
     okres G (mbackward f [] n s) (fun s' => SInvM inp s' /\ Mon s s' /\ stored s' n).
 
-Lemma propagate_np : forall f s w, okres G (propagate f s w) (fun s' => s_nodes s' = s_nodes s /\ s_bwd s' = s_bwd s /\ s_ext s' = s_ext s).
+Lemma propagate_np : forall po f s w, okres G (propagate_o po f s w) (fun s' => s_nodes s' = s_nodes s /\ s_bwd s' = s_bwd s /\ s_ext s' = s_ext s).
 Proof.
-  intros f s w. destruct (propagate f s w) as [s'| | |] eqn:E; cbn; auto.
-  - pose proof (propagate_we _ _ _ _ E). apply propagate_same in E. tauto.
-  - exfalso. revert s w E. induction f as [|f IH]; intros s w E; [discriminate|]. cbn [propagate] in E.
+  intros po f s w. destruct (propagate_o po f s w) as [s'| | |] eqn:E; cbn; auto.
+  - pose proof (propagate_o_we _ _ _ _ _ E). apply propagate_o_same in E. tauto.
+  - exfalso. revert s w E. induction f as [|f IH]; intros s w E; [discriminate|]. cbn [propagate_o] in E.
     destruct w as [|x r]; [discriminate|]. destruct (nmem x (s_visited s)); [eapply IH; eauto|]. cbv zeta in E.
-    destruct (mark_callers (set_visited s (x :: s_visited s)) x (callers_of (set_visited s (x :: s_visited s)) x) r) as [s2 w']. eapply IH; eauto.
-  - exfalso. revert s w E. induction f as [|f IH]; intros s w E; [discriminate|]. cbn [propagate] in E.
+    destruct (mark_callers (set_visited s (x :: s_visited s)) x (po (set_visited s (x :: s_visited s)) x (callers_of (set_visited s (x :: s_visited s)) x)) r) as [s2 w']. eapply IH; eauto.
+  - exfalso. revert s w E. induction f as [|f IH]; intros s w E; [discriminate|]. cbn [propagate_o] in E.
     destruct w as [|x r]; [discriminate|]. destruct (nmem x (s_visited s)); [eapply IH; eauto|]. cbv zeta in E.
-    destruct (mark_callers (set_visited s (x :: s_visited s)) x (callers_of (set_visited s (x :: s_visited s)) x) r) as [s2 w']. eapply IH; eauto.
+    destruct (mark_callers (set_visited s (x :: s_visited s)) x (po (set_visited s (x :: s_visited s)) x (callers_of (set_visited s (x :: s_visited s)) x)) r) as [s2 w']. eapply IH; eauto.
 Qed.
-Lemma propagate_t_np : forall f s w, okres G (propagate_t f s w) (fun s' => s_nodes s' = s_nodes s /\ s_bwd s' = s_bwd s /\ s_ext s' = s_ext s).
+Lemma propagate_t_np : forall po f s w, okres G (propagate_t_o po f s w) (fun s' => s_nodes s' = s_nodes s /\ s_bwd s' = s_bwd s /\ s_ext s' = s_ext s).
 Proof.
-  intros f s w. destruct (propagate_t f s w) as [s'| | |] eqn:E; cbn; auto.
-  - pose proof (propagate_t_we _ _ _ _ E). apply propagate_t_same in E. tauto.
-  - exfalso. revert s w E. induction f as [|f IH]; intros s w E; [discriminate|]. cbn [propagate_t] in E.
+  intros po f s w. destruct (propagate_t_o po f s w) as [s'| | |] eqn:E; cbn; auto.
+  - pose proof (propagate_t_o_we _ _ _ _ _ E). apply propagate_t_o_same in E. tauto.
+  - exfalso. revert s w E. induction f as [|f IH]; intros s w E; [discriminate|]. cbn [propagate_t_o] in E.
     destruct w as [|x r]; [discriminate|]. destruct (nmem x (s_visited s)); [eapply IH; eauto|]. cbv zeta in E.
-    destruct (mark_callers_t (set_visited s (x :: s_visited s)) x (callers_of (set_visited s (x :: s_visited s)) x) r) as [s2 w']. eapply IH; eauto.
-  - exfalso. revert s w E. induction f as [|f IH]; intros s w E; [discriminate|]. cbn [propagate_t] in E.
+    destruct (mark_callers_t (set_visited s (x :: s_visited s)) x (po (set_visited s (x :: s_visited s)) x (callers_of (set_visited s (x :: s_visited s)) x)) r) as [s2 w']. eapply IH; eauto.
+  - exfalso. revert s w E. induction f as [|f IH]; intros s w E; [discriminate|]. cbn [propagate_t_o] in E.
     destruct w as [|x r]; [discriminate|]. destruct (nmem x (s_visited s)); [eapply IH; eauto|]. cbv zeta in E.
-    destruct (mark_callers_t (set_visited s (x :: s_visited s)) x (callers_of (set_visited s (x :: s_visited s)) x) r) as [s2 w']. eapply IH; eauto.
+    destruct (mark_callers_t (set_visited s (x :: s_visited s)) x (po (set_visited s (x :: s_visited s)) x (callers_of (set_visited s (x :: s_visited s)) x)) r) as [s2 w']. eapply IH; eauto.
 Qed.
 
 Lemma CallerOk_caller : forall c n s, CallerOk (fq_caller c n s) n <-> CallerOk c n.
@@ -357,7 +357,7 @@ Proof.
 Qed.
 
 Lemma prog_tfc : forall f, prog_query f -> forall ts s, SInvM inp s -> (forall t, In t ts -> stored s t) ->
-  okres G (mtfc p tord bord f [] ts s) (fun s' => SInvM inp s' /\ Mon s s').
+  okres G (mtfc p tord bord pord f [] ts s) (fun s' => SInvM inp s' /\ Mon s s').
 Proof.
   intros f IHq. induction ts as [|t r IH]; intros s HS Ht; cbn [mtfc].
   - cbn. split; [exact HS|apply Mon_refl].
@@ -368,7 +368,7 @@ Proof.
     intros s' [A B]. split; [exact A|eapply Mon_trans; eauto].
 Qed.
 Lemma prog_bp : forall f, prog_query f -> forall ts s, SInvM inp s -> (forall t, In t ts -> stored s t) ->
-  okres G (mbp p tord bord f [] ts s) (fun s' => SInvM inp s' /\ Mon s s').
+  okres G (mbp p tord bord pord f [] ts s) (fun s' => SInvM inp s' /\ Mon s s').
 Proof.
   intros f IHq. induction ts as [|t r IH]; intros s HS Ht; cbn [mbp].
   - cbn. split; [exact HS|apply Mon_refl].
@@ -382,7 +382,7 @@ Qed.
 Lemma prog_walk : forall f n stk pd i e, prog_query f -> alookup p n = Some e -> StkOk rk stk n ->
   forall cs rtfc cleaned fr ms s, SInvM inp s ->
     (forall x, In x cs -> In x (expr_reads e) /\ stored s x) -> FrS s e fr ->
-    okres G (mwalk p tord bord f n stk pd i cs rtfc cleaned fr ms s)
+    okres G (mwalk p tord bord pord f n stk pd i cs rtfc cleaned fr ms s)
           (fun '(d, fr', ms', s1) => SInvM inp s1 /\ Mon s s1 /\ FrS s1 e fr').
 Proof.
   intros f n stk pd i e IHq He Hstk. induction cs as [|cal r IH]; intros rtfc cleaned fr ms s HS Hcs Hfr; cbn [mwalk].
@@ -396,7 +396,7 @@ Proof.
               okres G (match get_info s0 cal, Some (ov, otfc) with
                      | Some ci, Some (ov, otfc) =>
                          if negb (i_value ci =? ov) then Ok (DRecompute, fr0, ms ++ m1, s0)
-                         else mwalk p tord bord f n stk pd i r (rt ci) cl fr0 (ms ++ m1) s0
+                         else mwalk p tord bord pord f n stk pd i r (rt ci) cl fr0 (ms ++ m1) s0
                      | _, _ => Panic 2 end)
                     (fun '(d, fr', ms', s1) => SInvM inp s1 /\ Mon s s1 /\ FrS s1 e fr')).
     { intros s0 fr0 HS0 HM0 Hfr0 m1 rt cl. pose proof (HM0 cal Hcst) as Hc0. unfold stored in Hc0.
@@ -408,11 +408,11 @@ Proof.
         + intros [[[d fr'] ms'] s1] (A & B & C). split; [exact A|]. split; [eapply Mon_trans; eauto|exact C]. }
     destruct (kind_eqb (nkind cal) KInput).
     + apply (Hstep s fr HS (Mon_refl s) Hfr [] (fun ci => rtfc || (negb (kind_eqb (nkind cal) KFirewall) && negb (nset_eqb (i_tfc ci) otfc)))).
-    + match goal with |- context [query_for_o p None tord bord f ?a ?b ?c ?d0 ?e0] =>
+    + match goal with |- context [query_for_o p None tord bord pord f ?a ?b ?c ?d0 ?e0] =>
         pose proof (IHq a b c d0 e0 e HS (fun _ => or_introl Hcst)
                       (StkOk_lower rk _ _ _ Hstk (Hrk _ _ _ He Hce)) (fun K => ltac:(discriminate K))
                       (read_caller_ok n e cal _ _ _ He Hce)) as Q;
-        destruct (query_for_o p None tord bord f a b c d0 e0) as [[[[o fr1] m1] s']| | |] end; cbn in Q |- *; auto.
+        destruct (query_for_o p None tord bord pord f a b c d0 e0) as [[[[o fr1] m1] s']| | |] end; cbn in Q |- *; auto.
       destruct Q as (HS' & M' & _ & Hf').
       assert (Hfr' : FrS s' e (match fr1 with Some x => x | None => fr end)).
       { specialize (Hf' Hfr Hce). destruct fr1 as [x|]; [exact Hf'|eapply FrS_mon; eauto]. }
@@ -439,7 +439,7 @@ Proof.
         intros Hfr Hn. eapply hit_frame; eauto. }
       pose proof (fast_path_slow _ _ _ _ _ _ Ef) as Hsp.
       (* the TFC repair *)
-      assert (T : okres G (mq_tfc p tord bord f stk c' sp n s) (fun s1 => SInvM inp s1 /\ Mon s s1)).
+      assert (T : okres G (mq_tfc p tord bord pord f stk c' sp n s) (fun s1 => SInvM inp s1 /\ Mon s s1)).
       { assert (Hdef : okres G (Ok s) (fun s1 => SInvM inp s1 /\ Mon s s1)) by (cbn; split; [exact HS|apply Mon_refl]).
         unfold mq_tfc. destruct c' as [|b rv pd prev| |] eqn:Ec'; try exact Hdef;
           (destruct sp; try exact Hdef; destruct (get_info s n) as [i|] eqn:Ei; try exact Hdef;
@@ -447,7 +447,7 @@ Proof.
       eapply okres_bind; [exact T|]. intros s1 [HS1 M1]. cbv beta.
       assert (Hask1 : G -> Askable s1 n) by (intro g; eapply Askable_mon; eauto).
       (* process *)
-      assert (P : okres G (mq_process p tord bord f stk c' sp n s1) (fun '(marks, s2) => SInvM inp s2 /\ Mon s1 s2 /\ stored s2 n)).
+      assert (P : okres G (mq_process p tord bord pord f stk c' sp n s1) (fun '(marks, s2) => SInvM inp s2 /\ Mon s1 s2 /\ stored s2 n)).
       { assert (Hgen : okres G (match get_info s1 n with
                               | Some i => if (i_verified i =? s_ts s1)%N then Ok ([], s1) else mrepair f stk c' n s1
                               | None => mexecute f stk c' n false empty_frame s1 end)
@@ -530,7 +530,7 @@ Proof.
     assert (PE : prog_eval (S f)).
     { assert (Hread : forall stk b rv pd prev e0 d fr s, SInvM inp s -> alookup p b = Some e0 -> In d (expr_reads e0) ->
                 StkOk rk stk b -> FrS s e0 fr ->
-                okres G (mread p tord bord f (b :: stk) (CQuery b rv pd prev) d fr s)
+                okres G (mread p tord bord pord f (b :: stk) (CQuery b rv pd prev) d fr s)
                       (fun '(o, fr', ms, s') => SInvM inp s' /\ Mon s s' /\ FrS s' e0 fr')).
       { intros stk b rv pd prev e0 d fr s HS He Hd Hstk Hfr. unfold mread.
         pose proof (IHq (b :: stk) (CQuery b rv pd prev) (Some fr) d s e0 HS (read_askable s b e0 d HS He Hd)
@@ -543,7 +543,7 @@ Proof.
         destruct o as [[z|]|]; cbn; auto. }
       assert (Hbin : forall stk b rv pd prev e0 a c0 op fr s, SInvM inp s -> alookup p b = Some e0 ->
                 (forall d, In d (expr_reads a ++ expr_reads c0) -> In d (expr_reads e0)) -> StkOk rk stk b -> FrS s e0 fr ->
-                okres G (mbin p tord bord f (b :: stk) (CQuery b rv pd prev) a c0 op fr s)
+                okres G (mbin p tord bord pord f (b :: stk) (CQuery b rv pd prev) a c0 op fr s)
                       (fun '(o, fr', ms, s') => SInvM inp s' /\ Mon s s' /\ FrS s' e0 fr')).
       { intros stk b rv pd prev e0 a c0 op fr s HS He Hsub Hstk Hfr. unfold mbin.
         eapply okres_bind; [apply (IHe stk b rv pd prev e0 a fr s HS He (fun d Hd => Hsub d (in_or_app _ _ _ (or_introl Hd))) Hstk Hfr)|].
@@ -552,7 +552,7 @@ Proof.
         intros [[[y fr2] m2] s2] (A2 & B2 & C2). destruct y; cbn; (split; [exact A2|]; split; [eapply Mon_trans; eauto|exact C2]). }
       assert (Hgrp : forall stk b rv pd prev e0 ns acc fr ms s, SInvM inp s -> alookup p b = Some e0 ->
                 (forall d, In d ns -> In d (expr_reads e0)) -> StkOk rk stk b -> FrS s e0 fr ->
-                okres G (mgroup p tord bord f (b :: stk) (CQuery b rv pd prev) ns acc fr ms s)
+                okres G (mgroup p tord bord pord f (b :: stk) (CQuery b rv pd prev) ns acc fr ms s)
                       (fun '(o, fr', ms', s') => SInvM inp s' /\ Mon s s' /\ FrS s' e0 fr')).
       { intros stk b rv pd prev e0. induction ns as [|d r IHn]; intros acc fr ms s HS He Hsub Hstk Hfr; cbn [mgroup].
         - cbn. split; [exact HS|]. split; [apply Mon_refl|exact Hfr].
@@ -604,10 +604,10 @@ Proof.
         { intros x Hx. split; [apply Hfw; exact Hx|eapply (sk_target _ _ HS); eauto]. }
         assert (Hfe : FrS s e empty_frame) by (split; cbn; auto; try discriminate; intros d []).
         pose proof (prog_walk f n stk (x_pedantic c) i e IHq He Hstk (all_callees (i_fwd i)) false [] empty_frame [] s HS Hcs Hfe) as W.
-        destruct (mwalk p tord bord f n stk (x_pedantic c) i (all_callees (i_fwd i)) false [] empty_frame [] s)
+        destruct (mwalk p tord bord pord f n stk (x_pedantic c) i (all_callees (i_fwd i)) false [] empty_frame [] s)
           as [[[[d fr1] marks] s1]| | |] eqn:Ew; cbn in W |- *; auto.
         destruct W as (HS1 & M1 & Hf1).
-        pose proof (mmono_walk p tord bord f n stk _ i (proj1 (mmono_all p tord bord f)) _ _ _ _ _ _ _ _ _ _ Ew) as MW.
+        pose proof (mmono_walk p tord bord pord f n stk _ i (proj1 (mmono_all p tord bord pord f)) _ _ _ _ _ _ _ _ _ _ Ew) as MW.
         assert (Ei1 : get_info s1 n = Some i) by (rewrite (mr_stk _ _ _ MW n (or_introl eq_refl)); exact Ei).
         apply (Hfin d fr1 marks s1 HS1 M1 Ei1 (fs_tfc _ _ _ Hf1)).
         intros _ _. right. split; [exact Kk|congruence]. }
